@@ -172,11 +172,34 @@ CHECKS["C09"] = dict(engine="merkle", category="proof", design_ref="DESIGN.md §
          "also lists the standard-library axioms Uint63.eqb_refl / eqb_correct), translator xlate_ivs.py, harness.",
     technique="Coq proof parametric in the hash + executable SHA-256 instance + correspondence")
 
+CHECKS["C05"] = dict(engine="core", category="proof", design_ref="DESIGN.md §5 C05/C07, §11.3",
+    text="Coq model of the Rust Bit Machine as written (bit-addressed data with out-of-range access = Panic, frame stacks, explicit "
+         "call stack, one step arm per combinator, exec_jet, input, output via from_padded_bits, for_program) proved correct "
+         "against a big-step semantics by induction on the typing derivation, for arbitrary memory contents, frame positions, "
+         "lower frames and remaining call stack: the result cells are a padded encoding of the semantic value, everything "
+         "outside the write window and the scratch area is unchanged, each error kind occurs exactly when the semantics fail, "
+         "the verdict is independent of initial memory and of the input's padding bits. 306 of 368 Core jets are specified in "
+         "Gallina (the rest are an oracle under a typing hypothesis). Correspondence on generated typed programs (output bits, "
+         "error payloads) and against a python reference evaluator.",
+    note="Trusted: Coq kernel, hand-written machine model and jet specifications, harness; Elements jets, C code and the 62 "
+         "unspecified Core jets are not modelled.",
+    technique="Coq proof of machine correctness by induction on typing + correspondence")
+CHECKS["C07"] = dict(engine="core", category="proof", design_ref="DESIGN.md §5 C05/C07, §11.3",
+    text="Carried by the same induction as C05: if check_program accepts then no bound arithmetic saturated, the machine sized by "
+         "for_program never touches a cell beyond 8*|data|, never exceeds the frame capacity and never panics, on failing paths "
+         "too; the table-driven bound computation equals the tree recursion; check_program refuses exactly when one of its seven "
+         "quantities exceeds its limit and its own additions cannot overflow; the pre-fix unchecked comp bound is refuted. "
+         "Compared: high-water marks from the verif-hooks instrumentation, allocation sizes, NodeBounds, LimitError fields, in "
+         "debug and release builds, including programs over huge shared types around MAX_CELLS, 2^32 and 2^64.",
+    note="Trusted: as C05, plus the hook (cargo feature verif-hooks, add-only counters in BitMachine::new_write_frame).",
+    technique="Coq proof (bounds invariant in the machine-correctness induction) + hook-based correspondence")
+
 NOT_YET = {}
 
 ENGINES = [
     dict(name="bits", path="coq/Bits", serves_properties=["C13"], kind_free_text="Coq model + proofs of bit reader/writer/natural code"),
     dict(name="budget", path="coq/Budget", serves_properties=["C19"], kind_free_text="Coq model + proofs of budget/padding arithmetic over translated constants"),
+    dict(name="core", path="coq/Core", serves_properties=["C05", "C07"], kind_free_text="Coq Bit Machine model, semantics, bounds + correctness proofs; Jets/JetSpec.v"),
     dict(name="merkle", path="coq/Merkle", serves_properties=["C09"], kind_free_text="Coq SHA-256/tagged-hash library, CMR structure theorems"),
     dict(name="dag", path="coq/Dag", serves_properties=["C18"], kind_free_text="Coq model of dag.rs iterators + refinement proofs"),
     dict(name="human", path="coq/Human", serves_properties=["C17"], kind_free_text="Coq model of naming/rendering/resolving + round-trip proof"),
